@@ -247,9 +247,17 @@ class Gen:
                         ctx = EOI
                 return ('rule', self.kind(scripted_p), re, ctx)
 
+            def with_eoi_sibling(r):
+                # sometimes list the same regex with a trailing `$` as a sibling rule, before or after
+                if r[2] != EOI and r[2][0] != 'cat' or (r[2][0] == 'cat' and r[2][2] != EOI):
+                    if rng.random() < 0.12:
+                        sib = ('rule', self.kind(scripted_p), ('cat', r[2], EOI), None)
+                        return [sib, r] if rng.random() < 0.5 else [r, sib]
+                return [r]
+
             if k == 0:
                 for _ in range(rng.randint(1, max_rules)):
-                    items.append(mk_rule(vars_any, vars_cls))
+                    items.extend(with_eoi_sibling(mk_rule(vars_any, vars_cls)))
             else:
                 names = ['Init'] + ['R%d' % i for i in range(1, k)]
                 for nm in names:
@@ -268,7 +276,7 @@ class Gen:
                             else:
                                 rs_items.append(('let', vn, self.regex(1, la, lc)))
                                 la.append(vn)
-                        rs_items.append(mk_rule(la, lc))
+                        rs_items.extend(with_eoi_sibling(mk_rule(la, lc)))
                     items.append(('ruleset', nm, rs_items))
             d = {'name': name, 'items': items}
             if well_formed(d, self.builtins):
@@ -335,6 +343,28 @@ def regression_defs():
                    ('ruleset', 'R1', [rule('simple', chr_('b')), rule('infallible', cat(chr_('c'), EOI))]),
                    ('ruleset', 'R2', [rule('simple', chr_('b'))])],
         ['aa', 'aab', '[b', '[c', '[', '[bc', ''], scripts=[(11,), (19,), (11, 2)])
+    # the same lexeme with and without `$`, in both listing orders, in Init and another rule set (C05)
+    add('RegEoi2', [('ruleset', 'Init', [rule('simple', chr_('a')), rule('simple', cat(chr_('a'), EOI)),
+                                         rule('simple', cat(('plus', chr_('b')), EOI)), rule('simple', ('plus', chr_('b'))),
+                                         rule('infallible', chr_('['))]),
+                    ('ruleset', 'R1', [rule('simple', str_('cd')), rule('simple', cat(str_('cd'), EOI)), rule('infallible', chr_(']')),
+                                       rule('simple', chr_('e'), EOI), rule('simple', chr_('e'))])],
+        ['a', 'ab', 'bb', 'bba', '[cd', '[cdcd', '[e', '[ee', '[cd]a', ''], scripts=[(11,), (3,), (11, 0, 2)])
+    # `$` reached from non-entry states of non-Init rule sets, followed by rule sets with many
+    # transition-less accepting states (C03: add_dfa offsets of every kind of transition; C05)
+    for k, (mid1, mid2) in enumerate([(('star', chr_('x')), ('plus', chr_('y'))), (cat(chr_('x'), ('star', chr_('y'))), str_('xy')),
+                                       (('plus', set_('x', 'y')), cat(('opt', chr_('x')), chr_('y'))), (cat(chr_('y'), ('star', str_('xy'))), ('star', chr_('y')))]):
+        add('RegEoiSets%d' % k,
+            [('ruleset', 'Init', [rule('infallible', chr_('[')), rule('simple', chr_('a'))]),
+             ('ruleset', 'R1', [rule('simple', cat(mid1, EOI)), rule('simple', chr_('z')), rule('infallible', chr_(']'))]),
+             ('ruleset', 'R2', [rule('simple', cat(mid2, EOI)), rule('simple', chr_('q')), rule('simple', chr_('r')), rule('infallible', chr_(']'))]),
+             ('ruleset', 'R3', [rule('simple', chr_('q')), rule('simple', chr_('r')), rule('simple', chr_('s')), rule('simple', str_('tu')), rule('infallible', chr_(']'))])],
+            ['[', '[x', '[xx', '[y', '[yy', '[xy', '[xyxy', '[yxy', '[z', '[q', '[xq', '[]a', '[x]'],
+            scripts=[(11,), (19,), (27,), (11, 3), (19, 3)])
+    add('RegEoiSets4', [('ruleset', 'Init', [rule('infallible', chr_('b')), rule('infallible', chr_('c'))]),
+                        ('ruleset', 'R1', [rule('simple', cat(('star', chr_('x')), EOI)), rule('simple', chr_('y'))]),
+                        ('ruleset', 'R2', [rule('simple', chr_('q')), rule('infallible', chr_('r'))])],
+        ['b', 'bx', 'bxxx', 'byxx', 'byy', 'cqr', 'cq'], scripts=[(11,), (19,), (19, 5)])
     return out
 
 
